@@ -438,7 +438,7 @@ def content_length_u32(ctx, rule):
     ctx.ob(rule, "one-parse", n == 1, "%d parse call(s) in parse_header_line" % n, fn.loc(0))
     fty = [f for f in facts.struct_fields("common::headers::Headers") if f["name"] == "content_length"]
     ctx.ob(rule, "field-u32", fty and fty[0]["ty"]["s"] == "u32", "Headers.content_length is a %s" % (fty[0]["ty"]["s"] if fty else "?"))
-    _, lv = leaves(ctx, conn.PHL)
+    _, lv = leaves(ctx, conn.PHL, lower=True)
     for lf in lv:
         for e in lf.events:
             if e[0] == "assign" and e[3] == "(*_1).content_length":
